@@ -277,8 +277,6 @@ def strict_name(buf, el):
         raise T.Malformed('not a name')
     comps = []
     for c in T.walk(buf, vs, ve):
-        if not (1 <= c[0] <= 65535):
-            raise T.Malformed('component type out of range')
         comps.append(bytes(buf[c[1]:c[3]]))
     return comps
 
@@ -287,9 +285,9 @@ def _nni(buf, el, widths=(1, 2, 4, 8)):
     return T.dec_nni(bytes(buf[el[2]:el[3]]), widths)
 
 
-def strict_siginfo(buf, el, ignore_critical=False):
-    f = match_fields(buf, el[2], el[3], SIGINFO_FIELDS, ignore_critical)
-    out = {'signature_type': _nni(buf, f[SIG_TYPE], (1,)) if SIG_TYPE in f else None, 'key_locator': None,
+def strict_siginfo(buf, el, ignore_critical=False, fields=None):
+    f = match_fields(buf, el[2], el[3], fields or SIGINFO_FIELDS, ignore_critical)
+    out = {'signature_type': _nni(buf, f[SIG_TYPE]) if SIG_TYPE in f else None, 'key_locator': None,
            'nonce': _nni(buf, f[SIG_NONCE]) if SIG_NONCE in f else None,
            'time': _nni(buf, f[SIG_TIME]) if SIG_TIME in f else None,
            'seq': _nni(buf, f[SIG_SEQ]) if SIG_SEQ in f else None}
@@ -340,13 +338,14 @@ def strict_interest(wire):
         raise T.Malformed('no name')
     name = strict_name(buf, f[NAME])
     out = {'name': name, 'can_be_prefix': CAN_BE_PREFIX in f, 'must_be_fresh': MUST_BE_FRESH in f,
-           'nonce': _nni(buf, f[NONCE], (4,)) if NONCE in f else None,
+           'nonce': _nni(buf, f[NONCE]) if NONCE in f else None,
            'lifetime': _nni(buf, f[LIFETIME]) if LIFETIME in f else None,
-           'hop_limit': _nni(buf, f[HOP_LIMIT], (1,)) if HOP_LIMIT in f else None,
+           'hop_limit': _nni(buf, f[HOP_LIMIT]) if HOP_LIMIT in f else None,
            'forwarding_hint': None, 'app_param': None, 'sig_info': None, 'sig_value': None, 'signed': None,
            'digest_covered': None, 'digest_comp': None}
     if FWD_HINT in f:
-        out['forwarding_hint'] = [strict_name(buf, e) for e in T.walk(buf, f[FWD_HINT][2], f[FWD_HINT][3]) if e[0] == NAME]
+        fh = match_fields(buf, f[FWD_HINT][2], f[FWD_HINT][3], [NAME], repeated=(NAME,))
+        out['forwarding_hint'] = [strict_name(buf, e) for e in fh.get(NAME, [])]
     if APP_PARAM in f:
         out['app_param'] = buf[f[APP_PARAM][2]:f[APP_PARAM][3]]
         out['digest_covered'] = buf[f[APP_PARAM][1]:el[3]]
@@ -371,3 +370,75 @@ def strict_interest(wire):
                    'sigvalue': (f[ISIG_VALUE][2], f[ISIG_VALUE][3]) if ISIG_VALUE in f and f[ISIG_VALUE][3] > f[ISIG_VALUE][2] else None,
                    'digest': doff, 'tl': (0, el[2])}
     return out
+
+
+# ---- NDNLPv2 and certificate strict readers ------------------------------------------------------------
+LP_PACKET, LP_FRAGMENT = 0x64, 0x50
+# header fields in ascending TLV-TYPE order, Fragment last (NDNLPv2 / ndn-cxx lp::Packet)
+LP_FIELDS = [0x52, 0x53, 0x62, 0x0320, 0x032C, 0x0330, 0x0334, 0x0340, 0x0344, 0x0348, 0x034C, 0x0350, 0x50]
+LP_INT_FIELDS = {0x52: 'frag_index', 0x53: 'frag_count', 0x032C: 'incoming_face_id', 0x0330: 'next_hop_face_id',
+                 0x0340: 'congestion_mark'}
+LP_BYTES_FIELDS = {0x62: 'pit_token', 0x0344: 'ack', 0x0348: 'tx_sequence', 0x0350: 'prefix_announcement', 0x50: 'fragment'}
+
+
+def strict_lp(wire):
+    buf = bytes(wire)
+    el = T.single(buf)
+    if el[0] != LP_PACKET:
+        raise T.Malformed('not LpPacket')
+    f = match_fields(buf, el[2], el[3], LP_FIELDS, ignore_critical=True)
+    out = {'nack': None, 'nack_reason': None, 'non_discovery': 0x034C in f, 'cache_policy_type': None}
+    for t, nm in LP_INT_FIELDS.items():
+        out[nm] = _nni(buf, f[t]) if t in f else None
+    for t, nm in LP_BYTES_FIELDS.items():
+        out[nm] = buf[f[t][2]:f[t][3]] if t in f else None
+    if 0x0320 in f:
+        out['nack'] = True
+        n = match_fields(buf, f[0x0320][2], f[0x0320][3], [0x0321])
+        out['nack_reason'] = _nni(buf, n[0x0321]) if 0x0321 in n else None
+    if 0x0334 in f:
+        n = match_fields(buf, f[0x0334][2], f[0x0334][3], [0x0335])
+        out['cache_policy_type'] = _nni(buf, n[0x0335]) if 0x0335 in n else None
+        out['cache_policy'] = True
+    if out['frag_index'] is not None or out['frag_count'] is not None:
+        raise T.Malformed('fragmentation unsupported')
+    return out
+
+
+VALIDITY, NOT_BEFORE, NOT_AFTER, ADD_DESC, DESC_ENTRY, DESC_KEY, DESC_VALUE = 0xFD, 0xFE, 0xFF, 0x0102, 0x0200, 0x0201, 0x0202
+CERT_SIGINFO_FIELDS = SIGINFO_FIELDS + [VALIDITY, ADD_DESC]
+
+
+def strict_cert(wire):
+    buf = bytes(wire)
+    el = T.single(buf)
+    if el[0] != DATA:
+        raise T.Malformed('not Data')
+    f = match_fields(buf, el[2], el[3], DATA_FIELDS)
+    if NAME not in f:
+        raise T.Malformed('no name')
+    out = strict_data(buf)
+    out['validity'] = None
+    out['descriptions'] = None
+    if SIG_INFO in f:
+        s = match_fields(buf, f[SIG_INFO][2], f[SIG_INFO][3], CERT_SIGINFO_FIELDS, ignore_critical=True)
+        out['sig_info'] = strict_siginfo(buf, f[SIG_INFO], ignore_critical=True, fields=CERT_SIGINFO_FIELDS)
+        if VALIDITY in s:
+            v = match_fields(buf, s[VALIDITY][2], s[VALIDITY][3], [NOT_BEFORE, NOT_AFTER])
+            out['validity'] = (buf[v[NOT_BEFORE][2]:v[NOT_BEFORE][3]] if NOT_BEFORE in v else None,
+                               buf[v[NOT_AFTER][2]:v[NOT_AFTER][3]] if NOT_AFTER in v else None)
+        if ADD_DESC in s:
+            d = match_fields(buf, s[ADD_DESC][2], s[ADD_DESC][3], [DESC_ENTRY], repeated=(DESC_ENTRY,))
+            ents = []
+            for e in d.get(DESC_ENTRY, []):
+                kv = match_fields(buf, e[2], e[3], [DESC_KEY, DESC_VALUE])
+                ents.append((buf[kv[DESC_KEY][2]:kv[DESC_KEY][3]] if DESC_KEY in kv else None,
+                             buf[kv[DESC_VALUE][2]:kv[DESC_VALUE][3]] if DESC_VALUE in kv else None))
+            out['descriptions'] = ents
+    return out
+
+
+def strict_name_wire(wire):
+    buf = bytes(wire)
+    el = T.read_tlv(buf, 0, len(buf))     # Name.from_bytes tolerates trailing bytes (decode returns a length)
+    return strict_name(buf, el)
